@@ -13,7 +13,15 @@ def job(args):
     # safety net: a (mutated) tree whose state space does not close must not
     # hang the check; a capped run is reported as not exhaustive
     cap = opts.pop('max_states', None) or (400000 if tier == 'quick' else 4000000)
-    ad = SchedAdapter(desc, targets, props, **opts)
+    try:
+        ad = SchedAdapter(desc, targets, props, **opts)
+    except common.GraphMismatch as e:
+        sig = f'{pid}/task-graph-lacks-a-declared-algorithm'
+        return {'name': name, 'targets': targets, 'states': 0, 'transitions': 0, 'selfchecked': 0, 'capped': False,
+                'depth': 0, 'extra': {}, 'digest': '',
+                'violations': {sig: {'what': f'[{name}] {e}', 'count': 1,
+                                     'replay': {'engine': name, 'desc': desc, 'targets': targets, 'props': sorted(props),
+                                                'opts': opts, 'history': []}}}}
     ex = explore.Explorer(ad, max_states=cap, keep_graph='C04' in props)
     res = ex.run()
     rng = random.Random(seed)
